@@ -61,7 +61,7 @@ def _merge_max_mappings(*mappings):
     """
 
     def _merge_max(d1, d2):
-        d1.update((k, v) for k, v in d2.items() if d1.get(k, 0) < v)
+        d1.update((k, v) for k, v in d2.items() if d1.get(k, -1) < v)
         return d1
 
     return reduce(_merge_max, mappings, {})
